@@ -189,6 +189,7 @@ def oracle(case, obs):
     outstanding = {}            # worker -> number of do() calls whose task has not run yet
     coord_quit = 0
     prev = None
+    jobs = []                   # the coordinator's queue as the calls made it: ("do"|"grow"|"shrink"|"quit"|"idle", arg)
     for k, (lab, s) in enumerate(zip(labels, steps)):
         evs, _, stat = s.partition("/")
         idle_n, busy_n, back_n = map(int, stat.split("."))
@@ -199,6 +200,7 @@ def oracle(case, obs):
             if not quit_ok and evs != "ok":
                 return Failure(case, where + "call refused before quit()", "refused-before-quit")
             if evs == "ok":
+                jobs.append((lab[0], lab[1] if len(lab) > 1 else None))
                 if lab[0] == "do":
                     accepted.append(lab[1])
                 if lab[0] == "quit":
@@ -208,6 +210,12 @@ def oracle(case, obs):
         elif lab[0] == "coord":
             if coord_quit and evs != "-":
                 return Failure(case, where + "the coordinator performed a job after it was quit", "coord-after-quit")
+            job = jobs.pop(0) if evs != "-" and jobs else None
+            if job and job[0] == "grow" and job[1] and prev is not None and prev[2] > 0 and prev[0] + prev[1] < limit \
+                    and "c" not in [e[:1] for e in evs.split(",")]:
+                return Failure(case, where + f"grow({job[1]}) was served with {prev[2]} tasks waiting and "
+                               f"{prev[0] + prev[1]} live workers < limit {limit}, but no worker was created: the waiting "
+                               "tasks are stranded", "grow-ignored-with-backlog")
             for e in evs.split(","):
                 if not e or e in ("-", "b"):
                     continue
@@ -239,6 +247,7 @@ def oracle(case, obs):
                     if not quit_ok:
                         return Failure(case, where + "coordinator quit without Team.quit()", "coord-quit-early")
         elif lab[0] == "work" and evs != "-":
+            jobs.append(("idle", lab[1]))
             w, t = evs[1:].split(":")
             tid = int(t.rstrip("!"))
             raised = t.endswith("!")
@@ -285,7 +294,9 @@ def oracle(case, obs):
 #
 # case = {"kind": "pool", "min": m, "max": M, "pre": k (tasks submitted before start()), "adjust": [m2, M2] | None,
 #         "tasks": [[how, cb], ...],   how in POOL_KINDS; cb: 1 = callInThreadWithCallback, 0 = callInThread
+#         (cb: 2 / 3 / 4 = a callback that itself raises when told of a success / of a failure / always)
 #         "saw": [i, ...] startAWorker() before task i (len(tasks) = before stop()),
+#         "sow": [i, ...] stopAWorker() before task i and before a start() due at i (len(tasks) = before a late start()),
 #         "fault": k  the k-th call of the thread factory raises RuntimeError("can't start new thread") once}
 
 POOL_KINDS = ["ret", "exc", "sysexit", "genexit", "base", "slow"]
@@ -371,11 +382,14 @@ def pool_impl(case) -> str:
                     conc[0] -= 1
         return f
 
-    def cb(i):
+    def cb(i, mode):
+        # mode 1: returns; 2: raises when told of a success; 3: raises when told of a failure; 4: raises always
         def on(ok, res):
             with lock:
                 calls.setdefault(i, []).append((ok, "v" if ok and res == ("v", i) else
                                                 "?" if ok else res.type.__name__))
+            if mode == 4 or (mode == 2 and ok) or (mode == 3 and not ok):
+                raise RuntimeError("the onResult callback itself fails")
         return on
 
     refused = set()
@@ -394,9 +408,12 @@ def pool_impl(case) -> str:
 
     tasks = case["tasks"]
     saw = case.get("saw") or []
+    sow = case.get("sow") or []
     started = False
     try:
         for i, (how, c) in enumerate(tasks):
+            for _ in range(sow.count(i)):
+                tp.stopAWorker()
             if i == case["pre"]:
                 guarded("start", tp.start)
                 started = True
@@ -405,11 +422,13 @@ def pool_impl(case) -> str:
             if case["adjust"] and i == len(tasks) // 2 and started:
                 guarded("adjust", lambda: tp.adjustPoolsize(*case["adjust"]))
             if c:
-                ok = guarded(f"submit{i}", lambda: tp.callInThreadWithCallback(cb(i), mk(i, how)))
+                ok = guarded(f"submit{i}", lambda: tp.callInThreadWithCallback(cb(i, c), mk(i, how)))
             else:
                 ok = guarded(f"submit{i}", lambda: tp.callInThread(mk(i, how)))
             if not ok:
                 refused.add(i)
+        for _ in range(sow.count(len(tasks))):
+            tp.stopAWorker()
         if not started:
             guarded("start", tp.start)
         for _ in range(saw.count(len(tasks))):
@@ -456,8 +475,10 @@ def pool_oracle(case, obs):
                            "pool-task-not-once")
         if c and ncall != 1:
             return Failure(case, f"task {tok}: onResult called {ncall} times for a task that "
-                           + ("returns" if how in ("ret", "slow") else f"raises {_POOL_EXC[how]}"),
-                           "pool-onresult-not-once:" + how)
+                           + ("returns" if how in ("ret", "slow") else f"raises {_POOL_EXC[how]}")
+                           + ("" if c == 1 else " (the callback itself raises when told of "
+                              + {2: "a success", 3: "a failure", 4: "anything"}[c] + ")"),
+                           "pool-onresult-not-once:" + how + ("" if c == 1 else ":cb-raises"))
         if not c and ncall != 0:
             return Failure(case, f"task {tok}: callback invoked for callInThread", "pool-callback-invented")
         if c:
@@ -482,6 +503,17 @@ def pool_gen(rng, tier):
             cases.append({"kind": "pool", "min": 0, "max": 2, "pre": 0, "adjust": None, "tasks": [[how, c]]})
             cases.append({"kind": "pool", "min": 1, "max": 1, "pre": 1, "adjust": None,
                           "tasks": [[how, c], ["ret", 1], [how, 1]]})
+    # callback behaviours x task outcomes
+    for how in ("ret", "exc", "base"):
+        for c in (1, 2, 3, 4):
+            cases.append({"kind": "pool", "min": 0, "max": 2, "pre": 0, "adjust": None, "tasks": [[how, c], ["ret", 1]]})
+    # a shrink nobody can satisfy (stopAWorker before start / with none alive), work queued before start(), start(), stop()
+    for n in (1, 2):
+        for k in (1, 2, 3):
+            cases.append({"kind": "pool", "min": 0, "max": 3, "pre": n, "adjust": None, "sow": [n] * k,
+                          "tasks": [["ret", 1], ["exc", 1]][:n]})
+            cases.append({"kind": "pool", "min": 0, "max": 3, "pre": n, "adjust": None, "sow": [0] * k,
+                          "tasks": [["ret", 1], ["exc", 1]][:n]})
     # idle workers already at the maximum, then startAWorker(): no thread may be created
     for m in (1, 2, 3):
         cases.append({"kind": "pool", "min": m, "max": m, "pre": 0, "adjust": None, "saw": [0, 0, 2],
@@ -503,7 +535,9 @@ def pool_gen(rng, tier):
             adj = [rng.randrange(0, a + 1), a]
         c = {"kind": "pool", "min": mn, "max": mx, "pre": rng.choice([0, 0, 0, rng.randrange(0, n + 1)]),
              "adjust": adj,
-             "tasks": [[rng.choice(POOL_KINDS), int(rng.random() < 0.75)] for _ in range(n)]}
+             "tasks": [[rng.choice(POOL_KINDS), rng.choice([0, 1, 1, 1, 1, 2, 3, 4])] for _ in range(n)]}
+        if rng.random() < 0.3:
+            c["sow"] = sorted(rng.randrange(0, n + 1) for _ in range(rng.randrange(1, 4)))
         if rng.random() < 0.4:
             c["saw"] = sorted(rng.randrange(0, n + 1) for _ in range(rng.randrange(1, 4)))
         if rng.random() < 0.3:
@@ -520,7 +554,15 @@ def gen(rng, tier):
     quick = tier == "quick"
     cases = []
     # exhaustive small schedules: 2 tasks, limit in {0,1,2}; every word over a small alphabet, then drain
-    alpha = [["do"], ["coord"], ["work", 0], ["work", 1], ["quit"], ["shrink", 1], ["grow", 1]]
+    alpha = [["do"], ["coord"], ["work", 0], ["work", 1], ["quit"], ["shrink", 1], ["grow", 1], ["limit", 0], ["limit", 2]]
+    # a shrink nobody can satisfy, work backlogged with no worker alive, then the limit raised and growth requested
+    for over in (1, 2, 3):
+        for g in (1, 2, 3):
+            for tail in ([], [["quit"], ["drain"]]):
+                cases.append({"limit": 0, "ops": [["shrink", over], ["do", 0, 0], ["do", 1, 1], ["drain"], ["limit", 2],
+                                                  ["grow", g], ["drain"]] + tail})
+                cases.append({"limit": 1, "ops": [["do", 0, 0], ["drain"], ["shrink", over + 1], ["drain"], ["limit", 0],
+                                                  ["do", 1, 0], ["drain"], ["limit", 2], ["grow", g], ["drain"]] + tail})
     full = 3 if quick else 4          # exhaustive up to this length
     depth = 6 if quick else 7         # longer words sampled
     for lim in (0, 1, 2):
@@ -608,11 +650,24 @@ def to_coq(case):
         return f"Work {nat(o[1])}"
 
     if case.get("kind") == "pool":
-        return None
+        if case.get("fault") is not None:
+            return None             # a refused submission never reaches the wrapper
+        hows = {"ret": "HRet", "slow": "HSlow", "exc": "HExc", "sysexit": "HSysExit", "genexit": "HGenExit", "base": "HBase"}
+        cbs = ["NoCb", "CbOk", "CbRaiseOnOk", "CbRaiseOnFail", "CbRaiseAlways"]
+        calls = coq_list((f"({hows[h]}, {cbs[c]})" for h, c in case["tasks"]), "(how * cbmode)%type")
+        return f"(@inr (nat * list label) _ {calls})"
     labels = expanded(case)
     if len(labels) > 400:
         return None
-    return f"({nat(case['limit'])}, {coq_list(map(lab, labels), 'label')})"
+    return f"(@inl _ (list (how * cbmode)) ({nat(case['limit'])}, {coq_list(map(lab, labels), 'label')}))"
+
+
+def model_equal(case, a, b):
+    if case.get("kind") == "pool":
+        # the wrapper model speaks about each call (body runs, reports); threads, limits, stop() are the oracle's
+        head = a.split(" |")[0]
+        return " ".join(tok.split(":", 1)[1] for tok in head.split(" ")) == b if head else b == ""
+    return a == b
 
 
 def shrink(case):
@@ -630,14 +685,15 @@ def shrink(case):
 SPEC = Spec(
     pid="C49",
     gen=gen, impl=impl, oracle=oracle, corpus=corpus, shrink=shrink,
-    coq_header="From C49 Require Import Model Run.",
-    coq_fn="run_show",
+    coq_header="From C49 Require Import Model Wrapper Run.",
+    coq_fn="run_show_any",
     to_coq=to_coq,
+    model_equal=model_equal,
     nontrivial=lambda c, o: ":" in o and ("q" in o or c.get("kind") == "pool"),
     histogram=lambda c, o: ("real ThreadPool" if c.get("kind") == "pool" else
                             f"limit={c['limit']} quit={'y' if ['quit'] in c['ops'] else 'n'}"),
     rule="every word up to length 3 (quick; thorough 4; longer ones up to 6 / 7 sampled) over {do, coordinator step, worker 0/1 "
-         "step, quit, shrink(1), grow(1)} for limit in {0,1,2}, each followed by a drain to quiescence; random "
+         "step, quit, shrink(1), grow(1), limit:=0, limit:=2} for limit in {0,1,2}, each followed by a drain to quiescence; random "
          "schedules of 4-40 ops with tasks that raise, grow/shrink(n|None), limit changes, quit and drains; "
          "non-trivial = a task ran and a worker was quit",
     trusted=["hand-written model coq/C49/Model.v (tied by this correspondence run only)",
